@@ -19,6 +19,9 @@ func (w *Worker) renderArg(fr *frame, verb byte, a value) string {
 	if itf.t == nil {
 		return "<nil>"
 	}
+	if isSymbolic(itf.v) {
+		return "<sym>" // never run String()/Error() on a symbolic receiver: it would fork on rendering
+	}
 	switch v := itf.v.(type) {
 	case string:
 		if verb == 'q' {
